@@ -18,6 +18,7 @@ func init() {
 	zzsv.Register("ZZ_C08_RuntimeFaults", ZZ_C08_RuntimeFaults)
 	zzsv.Register("ZZ_C08_ConstantFaults", ZZ_C08_ConstantFaults)
 	zzsv.Register("ZZ_C08_ApiSequences", ZZ_C08_ApiSequences)
+	zzsv.Register("ZZ_C08_Tails", ZZ_C08_Tails)
 	zzsv.Register("ZZ_C08_OddObjects", ZZ_C08_OddObjects)
 }
 
@@ -477,4 +478,29 @@ func ZZ_C08_ApiSequences(sv *zzsv.T) {
 			n++
 		}
 	}
+}
+
+// ZZ_C08_Tails: how a script ends: a valid beginning followed by three
+// symbolic bytes from the characters the lexer treats specially while it is
+// inside a literal or a comment (quotes, backslash, CR, LF, slash, NUL, a
+// high byte, a digit, a dot): look-ahead at the very end of the input,
+// escapes and continuations cut short, literals and comments left open.
+func ZZ_C08_Tails(sv *zzsv.T) {
+	heads := []string{"", "return ", "x = \"ab", "x = 'ab", "x = a ~= /ab", "x = 1", "x = 1.", "// c", "x = a /", "foreach v in 1..", "return \"s\" + \""}
+	head := heads[sv.Choice("head", len(heads))]
+	tailChars := "\"'\\\r\n/\x00\xc3 1.a"
+	n := 1 + sv.Choice("tail.len", sv.Param("tail.maxlen", 3, 4))
+	tail := sv.String("tail", n)
+	for i := 0; i < n; i++ {
+		var in []bool
+		for j := 0; j < len(tailChars); j++ {
+			in = append(in, tail[i] == tailChars[j])
+		}
+		sv.Assume(sv.Any(in...))
+	}
+	src := head + tail
+	sv.Note("script", "<"+head+"> + symbolic tail")
+	ok := zzDrive(sv, src, nil)
+	sv.Observe("ok", ok)
+	sv.Assert("C08.tails.nopanic", ok)
 }
